@@ -4,6 +4,8 @@
   core <EXPECTED> <flags> <tx> <idx> <spent> <oracle> → ok | err:<CLASS> (or ok | err when EXPECTED = FAIL)
   collect <flags> <tx> <idx> <spent> <oracle>         → the oracle queries still unanswered (`,`-joined) or -
   runtx / coretx <EXPECTED> / collecttx               → the same over every input of the transaction
+  runv <variant> … / par … / valtx …                  → as run / run / runtx (other ways of driving the Go engine)
+  classify <script>                                   → po= wp= p2sh= succ= p2a= p2tr= p2wpkh= p2wsh=
   sha1 | ripemd160 | sha256 | hash160 <hex>           → digest
   num <hex> <minimal 0|1> <maxlen>                    → value | err ;  numenc <int> → hex
   sighash legacy|v0|tap …                             → digest | none
@@ -60,6 +62,11 @@ def collect (sp : Spend) (fl : Flags) : Nat → List String → List String
 def parseAnnex (s : String) : Option (Option Bytes) :=
   if s == "none" then some none else (hexE s).map some
 
+def handleRun (fl tx idx spent oracle : String) : String :=
+  match fl.toNat?, parseSpend tx idx spent oracle with
+  | some fl, some sp => showResult false (sp.verify (Flags.ofNat fl))
+  | _, _ => "bad-op"
+
 def handle : List String → String
   | "expect" :: _ :: rest => handle rest
   | ["run", fl, tx, idx, spent, oracle] =>
@@ -99,6 +106,31 @@ def handle : List String → String
           | .ok _ => ({ sp with idx := i } : Spend).verify (Flags.ofNat fl)
           | e => e) (.ok ()))
     | _, _ => "bad-op"
+  | ["runv", _, fl, tx, idx, spent, oracle] => handleRun fl tx idx spent oracle
+  | ["par", fl, tx, idx, spent, oracle] => handleRun fl tx idx spent oracle
+  | ["valtx", fl, tx, _, spent, oracle] =>
+    match fl.toNat?, parseSpend tx "0" spent oracle with
+    | some fl, some sp =>
+      showResult false ((List.range sp.tx.ins.length).foldl
+        (fun acc i => match acc with
+          | .ok _ => ({ sp with idx := i } : Spend).verify (Flags.ofNat fl)
+          | e => e) (.ok ()))
+    | _, _ => "bad-op"
+  | ["classify", sc] =>
+    match hexToList? sc with
+    | none => "bad-op"
+    | some s =>
+      let b := fun (x : Bool) => if x then "1" else "0"
+      let wp := witnessProgram? s
+      let wps := match wp with
+        | some (v, p) => toString v ++ ":" ++ listToHex p
+        | none => "-"
+      let isWp := fun (v n : Nat) => match wp with
+        | some (v', p) => v' == v && p.length == n
+        | none => false
+      "po=" ++ b (isPushOnly s) ++ " wp=" ++ wps ++ " p2sh=" ++ b (isP2SH s) ++
+        " succ=" ++ b (scanOpSuccess s.length s == some true) ++ " p2a=" ++ b (s == [0x51, 0x02, 0x4e, 0x73]) ++
+        " p2tr=" ++ b (isWp 1 32) ++ " p2wpkh=" ++ b (isWp 0 20) ++ " p2wsh=" ++ b (isWp 0 32)
   | ["sha1", h] => match hexToList? h with | some b => listToHex (sha1 b) | none => "bad-op"
   | ["ripemd160", h] => match hexToList? h with | some b => listToHex (ripemd160 b) | none => "bad-op"
   | ["sha256", h] => match hexToList? h with | some b => listToHex (sha256 b) | none => "bad-op"
